@@ -117,6 +117,8 @@ def run(ctx):
     ctx.rule("R15.e", "where deserialize picks a format by len(v) == K, K is the fixed width of the format used on that arm and differs from the other format's width; "
                       "serialize picks the date-only format exactly for type(v) is date", floor=1)
     ctx.rule("R15.f", "object level: serialize_parameters / deserialize_parameters loop over the same names with the same subset filter, call p.serialize / param[name].deserialize, and use plain json.dumps / json.loads", floor=5)
+    ctx.rule("R15.n", "entry-point model: Parameters.serialize_parameters interpreted with subset None / one name / two names: the subset reaches the serializer unchanged (None means every "
+                      "parameter -- no default subset is computed here) and the serializer's result is returned unchanged", floor=1)
     ctx.rule("R15.g", "the value handed to the codec is the value attribute access gives: no reader of the per-instance value store conflates an explicit None with 'not set' "
                       "(one-argument .get(name) followed by an `is None` fallback)", floor=1)
     ctx.rule("R15.i", "serialization is a function of the current value only: every return of serialize_parameter_value is the encoding, made in that call, of the value read in that call "
@@ -360,3 +362,4 @@ def run(ctx):
     # model-level rules, run last
     from checks import codec_model
     codec_model.report(ctx, "R15.j", "R15.k")
+    codec_model.namespace_entry_points(ctx, "R15.n")
